@@ -320,7 +320,9 @@ const ALPHABET: [&str; 30] = [
 ];
 /// letters of the notation in the other case
 const OTHER_CASE: [&str; 10] = ["a", "k", "q", "j", "t", "S", "H", "D", "C", "O"];
-const MULTIBYTE: [&str; 3] = ["é", "♠", "😀"];
+/// 2-, 3- and 4-byte characters, and the two non-ASCII characters that simple case folding maps onto notation letters
+/// (U+017F long s -> 's', U+212A Kelvin sign -> 'k'): a case-insensitive matcher accepts them where a byte slice then cuts
+const MULTIBYTE: [&str; 5] = ["é", "♠", "😀", "\u{17f}", "\u{212a}"];
 
 fn nth_string(mut index: u64, len: usize) -> String {
     let mut s = String::new();
@@ -504,7 +506,7 @@ fn run_job(job: &Job, which: Which, seed: u64, t: &Tables, report: &mut Report, 
                         let text = if rng.chance(1, 2) { t.text() } else { format!("{}:0.5", t.text()) };
                         let chars: Vec<char> = text.chars().collect();
                         for off in 0..=chars.len() {
-                            let m = MULTIBYTE[rng.usize_below(3)];
+                            let m = MULTIBYTE[rng.usize_below(MULTIBYTE.len())];
                             // replace the character at `off` (or append at the end)
                             let mut s: String = chars[..off].iter().collect();
                             s.push_str(m);
